@@ -7,7 +7,7 @@ from .C07 import collect_sinks, reader_roots, param_types
 def run(ctx):
     F = ctx.facts("default")
     ctx.rule("C17.alloc", "the size argument of every with_capacity / vec![_; n] / reserve on the reader call graph is bounded by a "
-                          "constant under the path's guards, or is not derived from the input (one instance per allocation site and role of the count; six functions allocate on the reader graph)", floor=6)
+                          "constant under the path's guards, or is not derived from the input (one instance per allocation site and role of the count; six functions allocate on the reader graph; a shared helper may merge their instances)", floor=4)
     ctx.rule("C17.grow", "every push inside a loop on the reader graph is paid for by input: the loop performs a fallible read in each "
                          "iteration, or it iterates an in-memory collection (whose length was paid for earlier)", floor=4)
     ctx.assumptions.append("this decides 'no allocation sized by a declared count', a necessary condition of the 64x bound; the "
@@ -30,7 +30,7 @@ def run(ctx):
     # --- backed ---------------------------------------------------------------------------------
     ctx.rule("C17.backed", "a reservation sized by a declared count (even a capped one) is backed before the next one is made: the loop "
                            "that follows it reads exactly that count of elements (so a count not backed by data fails on its first "
-                           "missing element), or iterates data already in memory", floor=5)
+                           "missing element), or iterates data already in memory", floor=3)
 
     def peel(t):
         while isinstance(t, tuple) and t:
